@@ -27,6 +27,7 @@ import (
 	"fmt"
 	"io"
 	"net"
+	"os"
 	"strconv"
 	"strings"
 	"sync/atomic"
@@ -218,7 +219,7 @@ func run(ci any) (res obs.Result) {
 	}
 	cl, err := rueidis.NewClient(rueidis.ClientOption{InitAddress: []string{"127.0.0.1:6379"}, DialCtxFn: dial, ForceSingleClient: true,
 		DisableRetry: true, DisableCache: true, PipelineMultiplex: -1, ReadBufferEachConn: c.Buf, WriteBufferEachConn: 4096, RingScaleEachConn: 6,
-		BlockingPoolSize: poolSize, ConnWriteTimeout: 1200 * time.Millisecond})
+		BlockingPoolSize: poolSize, ConnWriteTimeout: psx.Patience()})
 	if err != nil {
 		res.Oracle = "harness: " + err.Error()
 		return
@@ -259,14 +260,23 @@ func run(ci any) (res obs.Result) {
 	}
 	probe := func() string {
 		// a follow-up call on (possibly) the recycled connection
-		pctx, cancel := context.WithTimeout(ctx, 2500*time.Millisecond)
+		// (the bounds only matter when something is broken — a pool without a free slot, a reply that never comes —: they
+		// are generous and adaptive, see psx.Patience)
+		pctx, cancel := context.WithTimeout(ctx, psx.Patience())
 		defer cancel()
 		st := cl.DoStream(pctx, cl.B().Get().Key("s:probe").Build())
 		var b bytes.Buffer
 		for st.HasNext() {
 			if _, err := st.WriteTo(&b); err != nil {
+				if pctx.Err() != nil || os.IsTimeout(err) {
+					psx.Expired()
+				}
 				return "error: " + err.Error()
 			}
+		}
+		if b.Len() == 0 && pctx.Err() != nil {
+			psx.Expired()
+			return "error: " + pctx.Err().Error()
 		}
 		return b.String()
 	}
@@ -303,6 +313,9 @@ func run(ci any) (res obs.Result) {
 				}
 			}
 			if b.Len() == 0 && st.Error() != nil && st.Error() != io.EOF {
+				if st.Error() == context.DeadlineExceeded {
+					psx.Expired()
+				}
 				return "error: " + st.Error().Error()
 			}
 			return b.String()
@@ -311,11 +324,11 @@ func run(ci any) (res obs.Result) {
 			var holders []rueidis.RedisResultStream
 			var hcancels []context.CancelFunc
 			for h := 0; h < k; h++ {
-				hctx, hcancel := context.WithTimeout(ctx, 2500*time.Millisecond)
+				hctx, hcancel := context.WithTimeout(ctx, psx.Patience())
 				hcancels = append(hcancels, hcancel)
 				holders = append(holders, cl.DoStream(hctx, cl.B().Get().Key("s:probe").Build()))
 			}
-			tctx, tcancel := context.WithTimeout(ctx, 2500*time.Millisecond) // a pool without a free slot must not hang the observer
+			tctx, tcancel := context.WithTimeout(ctx, psx.Patience()) // a pool without a free slot must not hang the observer
 			cctx, cancel := context.WithCancel(tctx)
 			cancelDuring.Store(cancel)
 			st := cl.DoStream(cctx, build(0))
@@ -326,6 +339,9 @@ func run(ci any) (res obs.Result) {
 				got := drainProbe(st)
 				fail("ctx-done-wire-leak", "call %d did not have to set up a connection although the %d idle wires were held (it returned %q): the pool's books are off", k+1, k, got)
 			case err != context.Canceled:
+				if err == context.DeadlineExceeded {
+					psx.Expired()
+				}
 				fail("ctx-done-wire-leak", "call %d: the context was cancelled while the pooled connection was being set up, the stream reports %v", k+1, err)
 			case st.HasNext():
 				fail("ctx-done-wire-leak", "call %d: an error stream has a next reply", k+1)
@@ -558,7 +574,6 @@ func run(ci any) (res obs.Result) {
 		res.Oracle = strings.Join(problems, "; ")
 		res.Class = class
 	}
-	_ = psx.Itoa
 	return
 }
 
